@@ -14,7 +14,7 @@ def errName : Err → String
 
 def bits (w : String) : List Bool := w.toList.map (· == '1')
 
-/-- object handles are sent as raw numbers and resolved modulo the current length -/
+/-- object handles are sent as raw numbers and resolved modulo the number of committed objects -/
 def handle? (n : Nat) (w : String) : Option Nat := (decNat w).map (fun r => if n = 0 then 0 else r % n)
 
 def decOp (n : Nat) (w : String) : Option Op :=
@@ -53,11 +53,20 @@ def fresh (s : S) : String :=
 def runOps : S → List String → List String
   | _, [] => []
   | s, w :: ws =>
-    match decOp s.texts.length w with
+    match decOp s.tree.size w with
     | none => ["bad-op"]
     | some op =>
       let r := step s op
-      ((match r.2 with | .ok _ => "ok" | .error e => errName e) ++ "~" ++ fresh r.1 ++ "~" ++ dump r.1) :: runOps r.1 ws
+      let status := match r.2 with | .ok _ => "ok" | .error e => errName e
+      -- object operations also report where their object currently sits in the list
+      let where_ := match op with
+        | .objInsBefore h _ | .objInsAfter h _ | .replaceText h _ _ | .reSub h _ | .delete h | .appendToFamily h _ _ _ =>
+          if status == "skip" then "" else
+          match posOf s.items h with
+          | some p => "@" ++ toString p
+          | none => ""
+        | _ => ""
+      (status ++ where_ ++ "~" ++ fresh r.1 ++ "~" ++ dump r.1) :: runOps r.1 ws
 
 /-- `edit <ios> <delims> <ignore_blank> <auto_commit> <width> <lines> <op>…` -/
 def handle : List String → String
